@@ -137,6 +137,22 @@ def _tail(stmts, make):
             new_loop.orelse = rest
             out.append(new_loop)
             return out, rret
+        if isinstance(s, ast.Try) and i == len(stmts) - 1 and not s.finalbody and not s.orelse and any(isinstance(n, ast.Return) for n in ast.walk(s)):
+            # a try statement in tail position: 'return value' at the end of its body / handlers is 'result = value' there
+            body, bret = _tail(s.body, make)
+            new_try = copy.copy(s)
+            new_try.body = body or [ast.Pass()]
+            new_handlers = []
+            ended = bret
+            for h in s.handlers:
+                hb, hret = _tail(h.body, make)
+                nh = copy.copy(h)
+                nh.body = hb or [ast.Pass()]
+                new_handlers.append(nh)
+                ended = ended and (hret or _raises(hb))
+            new_try.handlers = new_handlers
+            out.append(new_try)
+            return out, ended
         if any(isinstance(n, ast.Return) for n in ast.walk(s)):
             raise NotInlinable("return inside a try / with")
         out.append(s)
